@@ -2088,12 +2088,23 @@ def ref_loss(cost, out, od, target):
     return sum(-t * math.log(o) for t, o in zip(target, out)) / od[0]
 
 
+_HUGE_BUDGET = [2]
+
+
 def model_case(rng, tier):
     kind = rng.choice(["dense", "dense", "dense", "conv"])
     big = rng.random() < 0.12      # occasionally: wider layers, larger batches, longer runs
+    # rarely, and in the thorough tier only (the list-based model needs minutes for it): more than a thousand
+    # trainable values in one model
+    huge = tier == "thorough" and _HUGE_BUDGET[0] > 0 and rng.random() < 0.01
+    if huge:
+        _HUGE_BUDGET[0] -= 1
+        kind, big = "dense", False
     layers = []
     if kind == "dense":
         sizes = [rng.randint(1, 3) if not big else rng.choice([4, 8, 9, 11]) for _ in range(rng.randint(2, 4))]
+        if huge:
+            sizes = [33, 32, rng.randint(1, 3)]
         n_layers = len(sizes) - 1
         cost = rng.choice(["mse", "ce"])
         for j in range(n_layers):
@@ -2126,12 +2137,14 @@ def model_case(rng, tier):
                            [rng.uniform(-1, 1) for _ in range(count * d * fr * fc)],
                            [rng.uniform(-0.5, 0.5) for _ in range(count)]))
             d, r, c = count, (r - fr) // sr + 1, (c - fc) // sc + 1
-    lr = rng.choice([0.1, 0.5, 0.01, 1.0]) if not big else rng.choice([0.01, 0.05])
+    lr = rng.choice([0.1, 0.5, 0.01, 1.0]) if not (big or huge) else rng.choice([0.01, 0.05])
     ins = [("model", layers, cost, lr)]
     params0 = []
     for l in layers:
         params0 += [list(l[4]), list(l[5])]
     iters = rng.randint(1, 4) if not big else rng.randint(6, 12)
+    if huge:
+        iters = rng.randint(2, 3)
     # the batch shape is fixed for the run in half of the cases and changes from iteration to iteration
     # (unbatched / different batch sizes, any order) in the other half
     fixed = rng.choice(batches)
